@@ -1,6 +1,7 @@
 package main
 
 import (
+	"regexp"
 	"fmt"
 	"sort"
 	"strings"
@@ -20,6 +21,52 @@ func init() {
 }
 
 func c11(c *Ctx) {
+	{
+		// "WAL writes made without holding the write lock are refused": the refusal must be about the writing owner
+		p := c.P
+		for _, f := range []string{"litefs.(*DB).writeWALHeader", "litefs.(*DB).writeWALFrameHeader", "litefs.(*DB).writeWALFrameData"} {
+			short := f[len("litefs.(*DB)."):]
+			key := "wal-write-gate/" + short + "/tests-the-writing-owner"
+			desc := short + " refuses the write unless the lock state it tests belongs to the writing owner (its guard set), not only the database-wide WRITE mutex"
+			why := "DB.writeLock is exclusive whenever any owner - another connection, a halt lock, a snapshot's temporary lock - holds WRITE: a writer that holds nothing passes the test"
+			fn := c.F(f)
+			if !c.need(key, "K2 Guarded", desc, fn, f) {
+				continue
+			}
+			owner := ""
+			for i, par := range fn.Params {
+				if par.Name() == "owner" {
+					owner = fmt.Sprintf("p%d", i)
+				}
+			}
+			gate, ownerGate := 0, 0
+			for _, b := range fn.Blocks {
+				if len(b.Instrs) == 0 {
+					continue
+				}
+				iff, ok := b.Instrs[len(b.Instrs)-1].(*ssa.If)
+				if !ok {
+					continue
+				}
+				r, _ := p.Cond(iff.Cond)
+				if strings.Contains(r, ".State(") {
+					gate++
+					if owner != "" && regexp.MustCompile(`\b`+owner+`\b`).MatchString(r) {
+						ownerGate++
+					}
+				}
+			}
+			switch {
+			case gate == 0:
+				c.fail(key, "K2 Guarded", desc, why, "no lock-state test found before the write", 0)
+			case ownerGate == 0:
+				c.fail(key, "K2 Guarded", desc, why, fmt.Sprintf("the only lock-state test is on the database-wide mutex (%d test(s)); parameter owner (%s) does not occur in it", gate, owner), gate)
+			default:
+				c.ok(key, "K2 Guarded", desc, ownerGate)
+			}
+			c.Guarded("wal-write-gate/"+short+"/some-write-lock-held", f, p.PlainCalls("os.(*File).WriteAt"), gs(G(`\(2 == litefs\.\(\*RWMutex(Guard)?\)\.State\(.*\)\)|\(litefs\.\(\*RWMutex(Guard)?\)\.State\(.*\) == 2\)`, true)), 1, short+" writes only while some owner holds WRITE exclusively (the part of the clause that holds)", "")
+		}
+	}
 	{
 		// one DB object (= one lock domain) per name: existence check, creation and registration form one critical section of Store.mu
 		p := c.P
@@ -547,7 +594,7 @@ func c11(c *Ctx) {
 
 	// ---- gates ----
 	c.ckptGate("ckpt-gate")
-	excl := GP("(2 == litefs.(*RWMutex).State(&p0.writeLock))", true)
+	excl := G(`\(2 == litefs\.\(\*RWMutex(Guard)?\)\.State\(.*\)\)|\(litefs\.\(\*RWMutex(Guard)?\)\.State\(.*\) == 2\)`, true)
 	for _, f := range []string{"writeWALHeader", "writeWALFrameHeader", "writeWALFrameData"} {
 		c.Guarded("wal-write/"+f, "litefs.(*DB)."+f, p.PlainCalls("os.(*File).WriteAt"), gs(excl), 1, "WAL writes made without the WAL WRITE lock held exclusively are refused", "")
 	}
